@@ -1,5 +1,1293 @@
-/- C10 — property theorems (to be written). -/
-import SoundeventModel.Basic
+/-
+  C10 — Crowsetta conversions preserve times, frequencies, labels and order.
+  Property theorems only (helper lemmas live in Proofs/Lemmas/Crowsetta.lean).
+-/
+import SoundeventModel.Crowsetta
+import Proofs.Lemmas.Crowsetta
 namespace SE.Proofs.C10
+open SE SE.Crowsetta SE.Proofs.Lemmas.Crowsetta
+
+/-! ## import: the expansion factor is applied exactly once -/
+
+/-- from seconds: the time of an imported segment is `onset / te`, `offset / te`
+    (for `te = 1` that is the value itself); no hypothesis on `te` -/
+theorem C10_import_once_seconds (a b : Rat) (ns ne : Option Rat) (sr te : Rat) :
+    segTimes (some a) (some b) ns ne sr te true = some (a / te, b / te) := by
+  unfold segTimes fileTime adjTime
+  by_cases h : te = 1
+  · subst h; simp; constructor <;> grind
+  · simp [h]
+
+/-- from sample indices: `sample / samplerate`, whatever the expansion factor — the division by
+    `samplerate / te` and the later division by `te` cancel -/
+theorem C10_import_once_samples (n m sr te : Rat) (hte : te ≠ 0) :
+    segTimes none none (some n) (some m) sr te true = some (n / sr, m / sr) := by
+  unfold segTimes fileTime adjTime
+  by_cases h : te = 1
+  · subst h; simp; constructor <;> grind
+  · simp [h]; constructor <;> grind
+
+/-- each end separately (any mixture of seconds and samples) -/
+theorem C10_import_once_end (sec sample : Option Rat) (sr te : Rat) (hte : te ≠ 0) :
+    (fileTime sec sample sr te).map (adjTime true te) =
+      match sec, sample with
+      | some s, _ => some (s / te)
+      | none, some n => some (n / sr)
+      | none, none => none := by
+  unfold fileTime adjTime
+  by_cases h : te = 1
+  · subst h; cases sec <;> cases sample <;> simp <;> grind
+  · cases sec <;> cases sample <;> simp [h]; grind
+
+/-- boxes: times divided, frequencies multiplied, once -/
+theorem C10_import_once_box (onset offset low high te : Rat) :
+    boxCoords onset offset low high te true = (onset / te, low * te, offset / te, high * te) := by
+  unfold boxCoords adjTime adjFreq
+  by_cases h : te = 1
+  · subst h; simp; constructor <;> grind
+  · simp [h]
+
+/-- without adjustment nothing is scaled: seconds and box coordinates are copied, sample indices
+    become file time `sample / (samplerate / te)` -/
+theorem C10_import_unadjusted (a b n m onset offset low high sr te : Rat) :
+    segTimes (some a) (some b) none none sr te false = some (a, b) ∧
+    segTimes none none (some n) (some m) sr te false = some (n / (sr / te), m / (sr / te)) ∧
+    boxCoords onset offset low high te false = (onset, low, offset, high) := by
+  simp [segTimes, fileTime, adjTime, boxCoords, adjFreq]
+
+/-- a recording without time expansion: seconds are copied whatever `adjust` says -/
+theorem C10_import_no_expansion (a b : Rat) (ns ne : Option Rat) (sr : Rat) (adjust : Bool) :
+    segTimes (some a) (some b) ns ne sr 1 adjust = some (a, b) := by
+  simp [segTimes, fileTime, adjTime]
+
+/-- `segment_to_annotation` succeeds exactly when both ends are known, the interval is a valid
+    `TimeInterval` and the label converts; the geometry is the interval of `segTimes` -/
+theorem C10_import_segment_geometry (o : LabelOpts) (adjust : Bool) (r : Rec) (s : Segment) (a : Ann) :
+    importSegment o adjust r s = .ok a ↔
+      ∃ st en, segTimes s.onsetS s.offsetS (s.onsetSample.map ratOfInt) (s.offsetSample.map ratOfInt)
+          r.samplerate r.te adjust = some (st, en) ∧ 0 ≤ st ∧ st ≤ en ∧
+        a.geom = some (.timeInterval st en) ∧ labelToTags o s.label = .ok a.tags := by
+  unfold importSegment
+  cases hs : segTimes s.onsetS s.offsetS (s.onsetSample.map ratOfInt) (s.offsetSample.map ratOfInt)
+      r.samplerate r.te adjust with
+  | none => simp
+  | some p =>
+    obtain ⟨st, en⟩ := p
+    simp only [mkInterval, Option.some.injEq, Prod.mk.injEq]
+    by_cases hv : st > en ∨ st < 0 ∨ en < 0
+    · simp only [hv, if_true, bind, Except.bind]
+      constructor
+      · intro h; cases h
+      · rintro ⟨st', en', ⟨rfl, rfl⟩, h0, h1, _⟩; exfalso; grind
+    · simp only [hv, if_false, bind, Except.bind]
+      cases hl : labelToTags o s.label with
+      | error e => simp
+      | ok tags =>
+        simp only [pure, Except.pure, Except.ok.injEq]
+        constructor
+        · rintro rfl; exact ⟨st, en, ⟨rfl, rfl⟩, by grind, by grind, rfl, rfl⟩
+        · rintro ⟨st', en', ⟨rfl, rfl⟩, _, _, hg, ht⟩
+          cases a; simp at hg ht; simp [hg, ht]
+
+/-- a missing onset (or offset) is a `ValueError` -/
+theorem C10_import_segment_missing (o : LabelOpts) (adjust : Bool) (r : Rec) (s : Segment)
+    (h : (s.onsetS = none ∧ s.onsetSample = none) ∨ (s.offsetS = none ∧ s.offsetSample = none)) :
+    importSegment o adjust r s = .error .invalid := by
+  unfold importSegment segTimes fileTime
+  rcases h with ⟨h1, h2⟩ | ⟨h1, h2⟩ <;> simp [h1, h2]
+  cases s.onsetS <;> cases s.onsetSample <;> simp
+
+/-- `bbox_to_annotation`: the geometry is the `BoundingBox` of the scaled coordinates; for a
+    crowsetta box (onset ≤ offset, low ≤ high) and a positive factor no pair is swapped -/
+theorem C10_import_bbox_geometry (o : LabelOpts) (r : Rec) (b : BBox) (a : Ann)
+    (hte : 0 < r.te) (ht : b.onset ≤ b.offset) (hf : b.lowFreq ≤ b.highFreq) :
+    importBBox o true r b = .ok a ↔
+      0 ≤ b.onset ∧ 0 ≤ b.lowFreq ∧ b.highFreq * r.te ≤ MAXF ∧
+      a.geom = some (.boundingBox (b.onset / r.te) (b.lowFreq * r.te) (b.offset / r.te) (b.highFreq * r.te)) ∧
+      labelToTags o b.label = .ok a.tags := by
+  unfold importBBox
+  rw [C10_import_once_box]
+  have hinv : 0 < r.te⁻¹ := Rat.inv_pos.mpr hte
+  have h1 : b.onset / r.te ≤ b.offset / r.te := by
+    rw [Rat.div_def, Rat.div_def]; exact Rat.mul_le_mul_of_nonneg_right ht (Rat.le_of_lt hinv)
+  have h2 : b.lowFreq * r.te ≤ b.highFreq * r.te := Rat.mul_le_mul_of_nonneg_right hf (Rat.le_of_lt hte)
+  have h3 : 0 ≤ b.onset ↔ 0 ≤ b.onset / r.te := by
+    rw [Rat.div_def]
+    constructor
+    · intro h; exact Rat.mul_nonneg h (Rat.le_of_lt hinv)
+    · intro h
+      by_cases hn : 0 ≤ b.onset
+      · exact hn
+      · exfalso
+        have : b.onset * r.te⁻¹ < 0 := by
+          have := Rat.mul_lt_mul_of_pos_right (Rat.not_le.mp hn) hinv
+          simpa using this
+        grind
+  have h4 : 0 ≤ b.lowFreq ↔ 0 ≤ b.lowFreq * r.te := by
+    constructor
+    · intro h; exact Rat.mul_nonneg h (Rat.le_of_lt hte)
+    · intro h
+      by_cases hn : 0 ≤ b.lowFreq
+      · exact hn
+      · exfalso
+        have : b.lowFreq * r.te < 0 := by
+          have := Rat.mul_lt_mul_of_pos_right (Rat.not_le.mp hn) hte
+          simpa using this
+        grind
+  simp only [mkBox]
+  by_cases hv : b.onset / r.te < 0 ∨ b.lowFreq * r.te < 0 ∨ b.lowFreq * r.te > MAXF ∨ b.offset / r.te < 0 ∨
+      b.highFreq * r.te < 0 ∨ b.highFreq * r.te > MAXF
+  · simp only [hv, if_true, bind, Except.bind]
+    constructor
+    · intro h; cases h
+    · rintro ⟨h0, h0', hm, _⟩; exfalso; grind
+  · simp only [hv, if_false, bind, Except.bind]
+    have e1 : ¬ b.onset / r.te > b.offset / r.te := by grind
+    have e2 : ¬ b.lowFreq * r.te > b.highFreq * r.te := by grind
+    simp only [e1, e2, if_false]
+    cases hl : labelToTags o b.label with
+    | error e => simp
+    | ok tags =>
+      simp only [pure, Except.pure, Except.ok.injEq]
+      constructor
+      · rintro rfl; exact ⟨by grind, by grind, by grind, rfl, rfl⟩
+      · rintro ⟨_, _, _, hg, ht⟩
+        cases a; simp at hg ht; simp [hg, ht]
+
+example : importSegment {} true ⟨8000, 10, "rec.wav"⟩ ⟨"a", some 5, some 20, none, none⟩ =
+    .ok ⟨some (.timeInterval (1/2) 2), [⟨termFromKey "crowsetta", "a"⟩]⟩ := by decide +kernel
+example : importSegment {} true ⟨8000, 10, "rec.wav"⟩ ⟨"a", none, none, some 4000, some 16000⟩ =
+    .ok ⟨some (.timeInterval (1/2) 2), [⟨termFromKey "crowsetta", "a"⟩]⟩ := by decide +kernel
+example : importBBox {} true ⟨8000, 10, "rec.wav"⟩ ⟨5, 20, 100, 400, "a"⟩ =
+    .ok ⟨some (.boundingBox (1/2) 1000 2 4000), [⟨termFromKey "crowsetta", "a"⟩]⟩ := by decide +kernel
+example : importBBox {} true ⟨8000, 10, "rec.wav"⟩ ⟨5, 20, 100, 600000, "a"⟩ = .error .invalid := by
+  decide +kernel
+
+/-! ## import keeps order and length -/
+
+/-- one annotation per segment, in order: the i-th annotation is the import of the i-th segment -/
+theorem C10_import_order_length (o : LabelOpts) (adjust : Bool) (r : Rec) (segs : List Segment)
+    (anns : List Ann) (h : importSequence o adjust r segs = .ok anns) :
+    anns.length = segs.length ∧
+      ∀ i (hi : i < segs.length) (ha : i < anns.length), importSegment o adjust r segs[i] = .ok anns[i] :=
+  ⟨mapM_ok_length h, fun i hi ha => mapM_ok_get h i hi ha⟩
+
+/-- the sequence converts iff every segment does, and then it is the list of the single results;
+    otherwise the error of the first failing segment is raised -/
+theorem C10_import_sequence_get (o : LabelOpts) (adjust : Bool) (r : Rec) (segs : List Segment) :
+    (∀ anns, importSequence o adjust r segs = .ok anns ↔
+        segs.map (importSegment o adjust r) = anns.map Except.ok) ∧
+    (∀ e, importSequence o adjust r segs = .error e ↔
+        ∃ pre s post, segs = pre ++ s :: post ∧ importSegment o adjust r s = .error e ∧
+          ∀ x ∈ pre, ∃ a, importSegment o adjust r x = .ok a) :=
+  ⟨fun anns => mapM_ok_iff _ segs anns, fun e => mapM_error_iff _ segs e⟩
+
+/-- `annotation_to_clip_annotation`: the sound events are the imported boxes followed by the
+    imported segments of every sequence, all in order; every sequence annotation lists exactly
+    the sound events of its crowsetta sequence -/
+theorem C10_import_annotation_order (o : LabelOpts) (adjust : Bool) (r : Rec) (ca : CrowAnn) (c : ClipAnn)
+    (h : importAnnotation o adjust r ca = .ok c) :
+    ∃ boxes : List Ann,
+      ca.bboxes.map (importBBox o adjust r) = boxes.map Except.ok ∧
+      ca.seqs.map (importSequence o adjust r) = c.sequences.map Except.ok ∧
+      c.soundEvents = boxes ++ c.sequences.flatten ∧
+      c.soundEvents.length = ca.bboxes.length + (ca.seqs.map List.length).sum := by
+  unfold importAnnotation at h
+  split at h
+  · cases h
+  · cases hb : ca.bboxes.mapM (importBBox o adjust r) with
+    | error e => simp [hb, bind, Except.bind] at h
+    | ok boxes =>
+      cases hq : importSeqs o adjust r ca.seqs with
+      | error e => simp [hb, hq, bind, Except.bind] at h
+      | ok seqs =>
+        simp [hb, hq, bind, Except.bind, pure, Except.pure] at h
+        subst h
+        have h1 := (mapM_ok_iff _ _ _).mp hb
+        have h2 := (importSeqs_ok_iff o adjust r ca.seqs seqs).mp hq
+        refine ⟨boxes, h1, h2, rfl, ?_⟩
+        have hl1 : boxes.length = ca.bboxes.length := mapM_ok_length hb
+        have hl2 := importSeqs_lengths o adjust r ca.seqs seqs h2
+        simp [List.length_flatten, hl1, hl2]
+
+/-- a notated path that differs from the recording's path is a `ValueError` -/
+theorem C10_import_annotation_path (o : LabelOpts) (adjust : Bool) (r : Rec) (ca : CrowAnn) (p : String)
+    (hp : ca.notatedPath = some p) (hne : p ≠ r.path) :
+    importAnnotation o adjust r ca = .error .invalid := by
+  unfold importAnnotation
+  simp [hp, hne]
+
+example : importSequence {} true ⟨8, 2, "rec.wav"⟩
+    [⟨"a", some 2, some 4, none, none⟩, ⟨"__empty__", none, none, some 8, some 16⟩] =
+    .ok [⟨some (.timeInterval 1 2), [⟨termFromKey "crowsetta", "a"⟩]⟩, ⟨some (.timeInterval 1 2), []⟩] := by
+  decide +kernel
+example : importSequence {} true ⟨8, 2, "rec.wav"⟩
+    [⟨"a", some 2, some 4, none, none⟩, ⟨"b", some 4, some 2, none, none⟩] = .error .invalid := by
+  decide +kernel
+example : (importAnnotation {} true ⟨8, 1, "rec.wav"⟩
+    ⟨some "rec.wav", [⟨1, 2, 3, 4, "b"⟩], [[⟨"a", some 2, some 4, none, none⟩]]⟩).map (·.soundEvents.length) = .ok 2 := by
+  decide +kernel
+
+/-! ## label → tags: one lemma per rung of the documented cascade -/
+
+/-- rung 1: an empty label gives no tags, whatever else is configured -/
+theorem C10_to_tags_empty (o : LabelOpts) (label : String) (h : label ∈ o.emptyLabels) :
+    labelToTags o label = .ok [] := by
+  simp [labelToTags, h]
+
+/-- rung 2: the function's result wins (a single tag is wrapped in a list) -/
+theorem C10_to_tags_fn_returns (o : LabelOpts) (label : String) (f : String → Except Err TagRes) (r : TagRes)
+    (he : label ∉ o.emptyLabels) (hf : o.tagFn = some f) (hr : f label = .ok r) :
+    labelToTags o label = .ok r.toList := by
+  simp [labelToTags, he, fnRung, hf, hr]
+
+/-- rung 2': only `ValueError` is caught; any other exception of the function propagates -/
+theorem C10_to_tags_fn_raises_other (o : LabelOpts) (label : String) (f : String → Except Err TagRes) (e : Err)
+    (he : label ∉ o.emptyLabels) (hf : o.tagFn = some f) (hr : f label = .error e) (hne : e ≠ .invalid) :
+    labelToTags o label = .error e := by
+  cases e <;> simp_all [labelToTags, fnRung]
+
+/-- rung 2'': a function that raises `ValueError` is as good as no function -/
+theorem C10_to_tags_fn_falls_through (o : LabelOpts) (label : String)
+    (h : o.tagFn = none ∨ ∃ f, o.tagFn = some f ∧ f label = .error .invalid) :
+    labelToTags o label = labelToTags { o with tagFn := none } label := by
+  rcases h with h | ⟨f, hf, hr⟩ <;> simp [labelToTags, fnRung, chooseKey, *]
+
+/-- rung 3: a term-mapping hit decides the term (before tag mapping, explicit term and keys) -/
+theorem C10_to_tags_term_mapping (o : LabelOpts) (label : String) (t : Term)
+    (he : label ∉ o.emptyLabels) (hf : fnRung o label = none) (ht : hit o.termMapping label = some t) :
+    labelToTags o label = .ok [⟨t, label⟩] := by
+  simp [labelToTags, he, hf, ht]
+
+/-- rung 4: a tag-mapping hit returns its tags — also when an explicit term is given -/
+theorem C10_to_tags_tag_mapping (o : LabelOpts) (label : String) (r : TagRes)
+    (he : label ∉ o.emptyLabels) (hf : fnRung o label = none) (ht : hit o.termMapping label = none)
+    (hm : hit o.tagMapping label = some r) :
+    labelToTags o label = .ok r.toList := by
+  simp [labelToTags, he, hf, ht, hm]
+
+/-- rung 7/8: the explicit term (no mapping hit) — keys are not consulted -/
+theorem C10_to_tags_explicit_term (o : LabelOpts) (label : String) (t : Term)
+    (he : label ∉ o.emptyLabels) (hf : fnRung o label = none) (ht : hit o.termMapping label = none)
+    (hm : hit o.tagMapping label = none) (hterm : o.term = some t) :
+    labelToTags o label = .ok [⟨t, label⟩] := by
+  simp [labelToTags, he, hf, ht, hm, hterm]
+
+/-- rung 5: a key-mapping hit (before the explicit key) -/
+theorem C10_to_tags_key_mapping (o : LabelOpts) (label : String) (k : String)
+    (he : label ∉ o.emptyLabels) (hf : fnRung o label = none) (ht : hit o.termMapping label = none)
+    (hm : hit o.tagMapping label = none) (hterm : o.term = none) (hk : hit o.keyMapping label = some k) :
+    labelToTags o label = .ok [⟨termFromKey k, label⟩] := by
+  simp [labelToTags, he, hf, ht, hm, hterm, chooseKey, hk]
+
+/-- rung 6: the explicit key survives a key-mapping miss -/
+theorem C10_to_tags_explicit_key (o : LabelOpts) (label : String) (k : String)
+    (he : label ∉ o.emptyLabels) (hf : fnRung o label = none) (ht : hit o.termMapping label = none)
+    (hm : hit o.tagMapping label = none) (hterm : o.term = none) (hk : hit o.keyMapping label = none)
+    (hkey : o.key = some k) :
+    labelToTags o label = .ok [⟨termFromKey k, label⟩] := by
+  simp [labelToTags, he, hf, ht, hm, hterm, chooseKey, hk, hkey]
+
+/-- rung 6': nothing given: the fallback key -/
+theorem C10_to_tags_fallback (o : LabelOpts) (label : String)
+    (he : label ∉ o.emptyLabels) (hf : fnRung o label = none) (ht : hit o.termMapping label = none)
+    (hm : hit o.tagMapping label = none) (hterm : o.term = none) (hk : hit o.keyMapping label = none)
+    (hkey : o.key = none) :
+    labelToTags o label = .ok [⟨termFromKey o.fallback, label⟩] := by
+  simp [labelToTags, he, hf, ht, hm, hterm, chooseKey, hk, hkey]
+
+/-- rung 8: unless a function or a tag mapping supplies the tags, the result is exactly one tag
+    and its value is the label -/
+theorem C10_to_tags_value_is_label (o : LabelOpts) (label : String)
+    (he : label ∉ o.emptyLabels) (hf : fnRung o label = none) (hm : hit o.tagMapping label = none) :
+    ∃ t, labelToTags o label = .ok [⟨t, label⟩] := by
+  simp only [labelToTags, he, hf, hm, if_false]
+  cases hit o.termMapping label <;> cases o.term <;> simp
+
+/-- the documented cascade as a relation: exactly one rung applies -/
+inductive ToTagsSpec (o : LabelOpts) (label : String) : Except Err (List Tag) → Prop
+  | empty : label ∈ o.emptyLabels → ToTagsSpec o label (.ok [])
+  | fnReturns (f r) : label ∉ o.emptyLabels → o.tagFn = some f → f label = .ok r →
+      ToTagsSpec o label (.ok r.toList)
+  | fnRaises (f e) : label ∉ o.emptyLabels → o.tagFn = some f → f label = .error e → e ≠ .invalid →
+      ToTagsSpec o label (.error e)
+  | termMapping (t) : label ∉ o.emptyLabels → fnRung o label = none → hit o.termMapping label = some t →
+      ToTagsSpec o label (.ok [⟨t, label⟩])
+  | tagMapping (r) : label ∉ o.emptyLabels → fnRung o label = none → hit o.termMapping label = none →
+      hit o.tagMapping label = some r → ToTagsSpec o label (.ok r.toList)
+  | explicitTerm (t) : label ∉ o.emptyLabels → fnRung o label = none → hit o.termMapping label = none →
+      hit o.tagMapping label = none → o.term = some t → ToTagsSpec o label (.ok [⟨t, label⟩])
+  | keyMapping (k) : label ∉ o.emptyLabels → fnRung o label = none → hit o.termMapping label = none →
+      hit o.tagMapping label = none → o.term = none → hit o.keyMapping label = some k →
+      ToTagsSpec o label (.ok [⟨termFromKey k, label⟩])
+  | explicitKey (k) : label ∉ o.emptyLabels → fnRung o label = none → hit o.termMapping label = none →
+      hit o.tagMapping label = none → o.term = none → hit o.keyMapping label = none → o.key = some k →
+      ToTagsSpec o label (.ok [⟨termFromKey k, label⟩])
+  | fallback : label ∉ o.emptyLabels → fnRung o label = none → hit o.termMapping label = none →
+      hit o.tagMapping label = none → o.term = none → hit o.keyMapping label = none → o.key = none →
+      ToTagsSpec o label (.ok [⟨termFromKey o.fallback, label⟩])
+
+/-- `label_to_tags` computes exactly what the documented cascade prescribes -/
+theorem C10_label_to_tags_cascade (o : LabelOpts) (label : String) (res : Except Err (List Tag)) :
+    labelToTags o label = res ↔ ToTagsSpec o label res := by
+  constructor
+  · rintro rfl
+    by_cases he : label ∈ o.emptyLabels
+    · rw [C10_to_tags_empty o label he]; exact .empty he
+    · cases hfn : fnRung o label with
+      | some r =>
+        -- the function returned or raised something other than ValueError
+        unfold fnRung at hfn
+        cases hf : o.tagFn with
+        | none => simp [hf] at hfn
+        | some f =>
+          cases hr : f label with
+          | ok r' =>
+            rw [C10_to_tags_fn_returns o label f r' he hf hr]; exact .fnReturns f r' he hf hr
+          | error e =>
+            have hne : e ≠ .invalid := by
+              intro h; subst h; simp [hf, hr] at hfn
+            rw [C10_to_tags_fn_raises_other o label f e he hf hr hne]; exact .fnRaises f e he hf hr hne
+      | none =>
+        cases ht : hit o.termMapping label with
+        | some t => rw [C10_to_tags_term_mapping o label t he hfn ht]; exact .termMapping t he hfn ht
+        | none =>
+          cases hm : hit o.tagMapping label with
+          | some r => rw [C10_to_tags_tag_mapping o label r he hfn ht hm]; exact .tagMapping r he hfn ht hm
+          | none =>
+            cases hterm : o.term with
+            | some t =>
+              rw [C10_to_tags_explicit_term o label t he hfn ht hm hterm]
+              exact .explicitTerm t he hfn ht hm hterm
+            | none =>
+              cases hk : hit o.keyMapping label with
+              | some k =>
+                rw [C10_to_tags_key_mapping o label k he hfn ht hm hterm hk]
+                exact .keyMapping k he hfn ht hm hterm hk
+              | none =>
+                cases hkey : o.key with
+                | some k =>
+                  rw [C10_to_tags_explicit_key o label k he hfn ht hm hterm hk hkey]
+                  exact .explicitKey k he hfn ht hm hterm hk hkey
+                | none =>
+                  rw [C10_to_tags_fallback o label he hfn ht hm hterm hk hkey]
+                  exact .fallback he hfn ht hm hterm hk hkey
+  · intro h
+    cases h with
+    | empty he => exact C10_to_tags_empty o label he
+    | fnReturns f r he hf hr => exact C10_to_tags_fn_returns o label f r he hf hr
+    | fnRaises f e he hf hr hne => exact C10_to_tags_fn_raises_other o label f e he hf hr hne
+    | termMapping t he hfn ht => exact C10_to_tags_term_mapping o label t he hfn ht
+    | tagMapping r he hfn ht hm => exact C10_to_tags_tag_mapping o label r he hfn ht hm
+    | explicitTerm t he hfn ht hm hterm => exact C10_to_tags_explicit_term o label t he hfn ht hm hterm
+    | keyMapping k he hfn ht hm hterm hk => exact C10_to_tags_key_mapping o label k he hfn ht hm hterm hk
+    | explicitKey k he hfn ht hm hterm hk hkey =>
+      exact C10_to_tags_explicit_key o label k he hfn ht hm hterm hk hkey
+    | fallback he hfn ht hm hterm hk hkey => exact C10_to_tags_fallback o label he hfn ht hm hterm hk hkey
+
+-- non-vacuity: every rung is reachable, and the three Recon inputs behave as documented
+example : labelToTags {} "__empty__" = .ok [] := by decide
+example : labelToTags { key := some "explicit", keyMapping := some [("other", "x")] } "lab" =
+    .ok [⟨termFromKey "explicit", "lab"⟩] := by decide
+example : labelToTags { term := some ⟨"L", "n:L", "d"⟩, tagMapping := some [("lab", .single ⟨termFromKey "k", "v"⟩)] } "lab" =
+    .ok [⟨termFromKey "k", "v"⟩] := by decide
+example : labelToTags { term := some ⟨"L", "n:L", "d"⟩, keyMapping := some [("lab", "k")] } "lab" =
+    .ok [⟨⟨"L", "n:L", "d"⟩, "lab"⟩] := by decide
+example : labelToTags { tagFn := some (fun _ => .error .invalid), keyMapping := some [("lab", "k")], key := some "e" } "lab" =
+    .ok [⟨termFromKey "k", "lab"⟩] := by decide
+example : labelToTags { tagFn := some (fun _ => .error .key) } "lab" = .error .key := by decide
+example : labelToTags { termMapping := some [("lab", ⟨"T", "n:T", "d"⟩)],
+                        tagMapping := some [("lab", .many [])], term := some ⟨"L", "n:L", "d"⟩ } "lab" =
+    .ok [⟨⟨"T", "n:T", "d"⟩, "lab"⟩] := by decide
+
+/-! ## tag(s) → label: one lemma per rung -/
+
+/-- `label_from_tag` rung 1: the function decides (its exceptions propagate) -/
+theorem C10_from_tag_fn (kw : TagKw) (sep : String) (t : Tag) (f : Tag → Except Err String)
+    (h : kw.labelFn = some f) : labelFromTag kw sep t = f t := by
+  simp [labelFromTag, h]
+
+/-- rung 2: a mapping hit -/
+theorem C10_from_tag_mapping (kw : TagKw) (sep : String) (t : Tag) (m : List (Tag × String)) (l : String)
+    (hf : kw.labelFn = none) (hm : kw.labelMapping = some m) (hl : m.lookup t = some l) :
+    labelFromTag kw sep t = .ok l := by
+  simp [labelFromTag, hf, hm, hl]
+
+/-- rung 3: value only -/
+theorem C10_from_tag_value_only (kw : TagKw) (sep : String) (t : Tag)
+    (hf : kw.labelFn = none) (hm : kw.labelMapping.bind (·.lookup t) = none) (hv : kw.valueOnly = some true) :
+    labelFromTag kw sep t = .ok t.value := by
+  simp [labelFromTag, hf, hm, hv]
+
+/-- rung 4: key, separator, value -/
+theorem C10_from_tag_key_value (kw : TagKw) (sep : String) (t : Tag)
+    (hf : kw.labelFn = none) (hm : kw.labelMapping.bind (·.lookup t) = none) (hv : kw.valueOnly.getD false = false) :
+    labelFromTag kw sep t = .ok (t.term.label ++ sep ++ t.value) := by
+  simp [labelFromTag, hf, hm, hv, keyFromTerm]
+
+/-- `label_from_tags` rung 1: the sequence function decides, even for an empty tag list -/
+theorem C10_from_tags_fn (o : TagsOpts) (tags : List Tag) (f : List Tag → Except Err String)
+    (h : o.seqLabelFn = some f) : labelFromTags o tags = f tags := by
+  simp [labelFromTags, h]
+
+/-- rung 2: no tags: the empty label -/
+theorem C10_from_tags_empty (o : TagsOpts) (h : o.seqLabelFn = none) :
+    labelFromTags o [] = .ok o.emptyLabel := by
+  simp [labelFromTags, h]
+
+/-- rung 3: select by key: the first tag whose key matches, converted value-only (whatever
+    `value_only` was passed; the function and the mapping of `label_from_tag` still apply) -/
+theorem C10_from_tags_select_hit (o : TagsOpts) (tags : List Tag) (k : String) (t : Tag)
+    (hf : o.seqLabelFn = none) (hne : tags ≠ []) (hk : o.selectByKey = some k)
+    (ht : tags.find? (fun t => keyFromTerm t.term == k) = some t) :
+    labelFromTags o tags = labelFromTag { o.kw with valueOnly := some true } tagSep t := by
+  cases tags with
+  | nil => exact absurd rfl hne
+  | cons a as => simp only [labelFromTags, hf, hk, List.isEmpty_cons, ht]; rfl
+
+/-- … which, without function and mapping, is the value of the first matching tag: tags before
+    it do not carry the key -/
+theorem C10_from_tags_select_first (o : TagsOpts) (pre post : List Tag) (k : String) (t : Tag)
+    (hf : o.seqLabelFn = none) (hk : o.selectByKey = some k)
+    (hpre : ∀ x ∈ pre, x.term.label ≠ k) (ht : t.term.label = k)
+    (hfn : o.kw.labelFn = none) (hm : o.kw.labelMapping = none) :
+    labelFromTags o (pre ++ t :: post) = .ok t.value := by
+  have hfind : (pre ++ t :: post).find? (fun t => keyFromTerm t.term == k) = some t := by
+    have : pre.find? (fun t => keyFromTerm t.term == k) = none := by
+      rw [List.find?_eq_none]; intro x hx; simpa [keyFromTerm] using hpre x hx
+    rw [List.find?_append, this]
+    simp [keyFromTerm, ht]
+  rw [C10_from_tags_select_hit o _ k t hf (by simp) hk hfind]
+  simp [labelFromTag, hfn, hm]
+
+/-- rung 3': no tag carries the key: the empty label -/
+theorem C10_from_tags_select_miss (o : TagsOpts) (tags : List Tag) (k : String)
+    (hf : o.seqLabelFn = none) (hk : o.selectByKey = some k)
+    (hmiss : ∀ x ∈ tags, x.term.label ≠ k) :
+    labelFromTags o tags = .ok o.emptyLabel := by
+  cases tags with
+  | nil => exact C10_from_tags_empty o hf
+  | cons a as =>
+    have : (a :: as).find? (fun t => keyFromTerm t.term == k) = none := by
+      rw [List.find?_eq_none]; intro x hx; simpa [keyFromTerm] using hmiss x hx
+    simp only [labelFromTags, hf, hk, List.isEmpty_cons, this]; rfl
+
+/-- the index is taken modulo the number of tags: always in range (no `IndexError`) -/
+theorem C10_from_tags_index_range (tags : List Tag) (i : Int) (hne : tags ≠ []) :
+    (i % (tags.length : Int)).toNat < tags.length := by
+  have hpos : (0 : Int) < tags.length := by
+    have : 0 < tags.length := List.length_pos_iff.mpr hne
+    omega
+  have h1 := Int.emod_nonneg i (Int.ne_of_gt hpos)
+  have h2 := Int.emod_lt_of_pos i hpos
+  omega
+
+/-- rung 4: the tag at `index mod length` (negative and too large indices wrap around) -/
+theorem C10_from_tags_index (o : TagsOpts) (tags : List Tag) (i : Int)
+    (hf : o.seqLabelFn = none) (hne : tags ≠ []) (hk : o.selectByKey = none) (hi : o.index = some i) :
+    labelFromTags o tags =
+      labelFromTag o.kw tagSep (tags[(i % (tags.length : Int)).toNat]'(C10_from_tags_index_range tags i hne)) := by
+  have hr := C10_from_tags_index_range tags i hne
+  cases tags with
+  | nil => exact absurd rfl hne
+  | cons a as =>
+    simp only [labelFromTags, hf, hk, hi, List.isEmpty_cons]
+    rw [List.getElem?_eq_getElem hr]
+    rfl
+
+/-- rung 5: the labels of all tags, in order, joined by the separator; the first tag whose
+    conversion fails raises -/
+theorem C10_from_tags_join (o : TagsOpts) (tags : List Tag)
+    (hf : o.seqLabelFn = none) (hne : tags ≠ []) (hk : o.selectByKey = none) (hi : o.index = none) :
+    (∀ ls, tags.map (labelFromTag o.kw tagSep) = ls.map Except.ok →
+        labelFromTags o tags = .ok (String.intercalate o.separator ls)) ∧
+    (∀ e, tags.mapM (labelFromTag o.kw tagSep) = .error e → labelFromTags o tags = .error e) := by
+  cases tags with
+  | nil => exact absurd rfl hne
+  | cons a as =>
+    constructor
+    · intro ls h
+      have := (mapM_ok_iff _ _ _).mpr h
+      simp only [labelFromTags, hf, hk, hi, List.isEmpty_cons, this]; rfl
+    · intro e h
+      simp only [labelFromTags, hf, hk, hi, List.isEmpty_cons, h]; rfl
+
+/-- the documented cascade of `label_from_tags` as a relation -/
+inductive FromTagsSpec (o : TagsOpts) (tags : List Tag) : Except Err String → Prop
+  | seqFn (f) : o.seqLabelFn = some f → FromTagsSpec o tags (f tags)
+  | noTags : o.seqLabelFn = none → tags = [] → FromTagsSpec o tags (.ok o.emptyLabel)
+  | selectHit (k t) : o.seqLabelFn = none → tags ≠ [] → o.selectByKey = some k →
+      tags.find? (fun t => keyFromTerm t.term == k) = some t →
+      FromTagsSpec o tags (labelFromTag { o.kw with valueOnly := some true } tagSep t)
+  | selectMiss (k) : o.seqLabelFn = none → tags ≠ [] → o.selectByKey = some k →
+      tags.find? (fun t => keyFromTerm t.term == k) = none → FromTagsSpec o tags (.ok o.emptyLabel)
+  | index (i) (hne : tags ≠ []) : o.seqLabelFn = none → o.selectByKey = none → o.index = some i →
+      FromTagsSpec o tags
+        (labelFromTag o.kw tagSep (tags[(i % (tags.length : Int)).toNat]'(C10_from_tags_index_range tags i hne)))
+  | join : o.seqLabelFn = none → tags ≠ [] → o.selectByKey = none → o.index = none →
+      FromTagsSpec o tags ((tags.mapM (labelFromTag o.kw tagSep)).map (String.intercalate o.separator))
+
+/-- `label_from_tags` computes exactly what the documented cascade prescribes -/
+theorem C10_label_from_tags_cascade (o : TagsOpts) (tags : List Tag) (res : Except Err String) :
+    labelFromTags o tags = res ↔ FromTagsSpec o tags res := by
+  constructor
+  · rintro rfl
+    cases hf : o.seqLabelFn with
+    | some f => rw [C10_from_tags_fn o tags f hf]; exact .seqFn f hf
+    | none =>
+      by_cases hne : tags = []
+      · subst hne; rw [C10_from_tags_empty o hf]; exact .noTags hf rfl
+      · cases hk : o.selectByKey with
+        | some k =>
+          cases ht : tags.find? (fun t => keyFromTerm t.term == k) with
+          | some t => rw [C10_from_tags_select_hit o tags k t hf hne hk ht]; exact .selectHit k t hf hne hk ht
+          | none =>
+            have : labelFromTags o tags = .ok o.emptyLabel := by
+              cases tags with
+              | nil => exact absurd rfl hne
+              | cons a as => simp only [labelFromTags, hf, hk, List.isEmpty_cons, ht]; rfl
+            rw [this]; exact .selectMiss k hf hne hk ht
+        | none =>
+          cases hi : o.index with
+          | some i => rw [C10_from_tags_index o tags i hf hne hk hi]; exact .index i hne hf hk hi
+          | none =>
+            have : labelFromTags o tags =
+                (tags.mapM (labelFromTag o.kw tagSep)).map (String.intercalate o.separator) := by
+              cases tags with
+              | nil => exact absurd rfl hne
+              | cons a as => simp only [labelFromTags, hf, hk, hi, List.isEmpty_cons]; rfl
+            rw [this]; exact .join hf hne hk hi
+  · intro h
+    cases h with
+    | seqFn f hf => exact C10_from_tags_fn o tags f hf
+    | noTags hf he => subst he; exact C10_from_tags_empty o hf
+    | selectHit k t hf hne hk ht => exact C10_from_tags_select_hit o tags k t hf hne hk ht
+    | selectMiss k hf hne hk ht =>
+      cases tags with
+      | nil => exact absurd rfl hne
+      | cons a as => simp only [labelFromTags, hf, hk, List.isEmpty_cons, ht]; rfl
+    | index i hne hf hk hi => exact C10_from_tags_index o tags i hf hne hk hi
+    | join hf hne hk hi =>
+      cases tags with
+      | nil => exact absurd rfl hne
+      | cons a as => simp only [labelFromTags, hf, hk, hi, List.isEmpty_cons]; rfl
+
+-- non-vacuity
+example : labelFromTags { selectByKey := some "k", kw := { valueOnly := some true } } [⟨termFromKey "k", "v"⟩] = .ok "v" := by
+  decide
+example : labelFromTags { selectByKey := some "k", kw := { valueOnly := some false } }
+    [⟨termFromKey "a", "x"⟩, ⟨termFromKey "k", "v"⟩, ⟨termFromKey "k", "w"⟩] = .ok "v" := by decide
+example : labelFromTags { index := some (-1) } [⟨termFromKey "a", "x"⟩, ⟨termFromKey "k", "v"⟩] = .ok "k:v" := by decide
+example : labelFromTags { index := some 5 } [⟨termFromKey "a", "x"⟩, ⟨termFromKey "k", "v"⟩] = .ok "k:v" := by decide
+example : labelFromTags { index := some 4, kw := { valueOnly := some true } }
+    [⟨termFromKey "a", "x"⟩, ⟨termFromKey "k", "v"⟩] = .ok "x" := by decide
+example : labelFromTags {} [⟨termFromKey "a", "x"⟩, ⟨termFromKey "k", "v"⟩] = .ok "a:x,k:v" := by decide
+example : labelFromTags { selectByKey := some "zz", emptyLabel := "NA" } [⟨termFromKey "a", "x"⟩] = .ok "NA" := by decide
+
+/-! ## export -/
+
+/-- what validation guarantees for a `TimeInterval` (start ≤ end); no condition on other types -/
+def IntervalOrdered : Geom → Prop
+  | .timeInterval s e => s ≤ e
+  | _ => True
+
+/-- `segment_from_annotation` spans the time bounds of the geometry (of any type) and converts
+    the tags by the label cascade -/
+theorem C10_export_bounds_segment (o : TagsOpts) (cast : Bool) (sr : Rat) (a : Ann) (s : Segment)
+    (g : Geom) (b : Bounds) (hg : a.geom = some g) (hb : g.bounds = some b) (hord : IntervalOrdered g)
+    (h : exportSegment o cast sr a = .ok s) :
+    s.onsetS = some b.st ∧ s.offsetS = some b.en ∧ labelFromTags o a.tags = .ok s.label := by
+  unfold exportSegment at h
+  rw [hg] at h
+  simp only at h
+  have key : ∀ p, geomToInterval g cast = .ok p → p = (b.st, b.en) := by
+    intro p hp
+    cases g with
+    | timeInterval s0 e0 =>
+      rw [bounds_timeInterval s0 e0 hord] at hb
+      cases hb
+      simp [geomToInterval] at hp; exact hp.symm
+    | _ =>
+      simp only [geomToInterval, hb] at hp
+      cases cast <;> simp at hp
+      all_goals (cases hm : mkInterval b.st b.en <;> simp [hm] at hp; exact hp.symm)
+  cases hgi : geomToInterval g cast with
+  | error e => simp [hgi, bind, Except.bind] at h
+  | ok p =>
+    have := key p hgi; subst this
+    cases hl : labelFromTags o a.tags with
+    | error e => simp [hgi, hl, bind, Except.bind] at h
+    | ok l =>
+      simp [hgi, hl, bind, Except.bind, pure, Except.pure] at h
+      subst h; exact ⟨rfl, rfl, rfl⟩
+
+/-- a `TimeInterval` is exported as it is, whatever the cast switch says -/
+theorem C10_export_interval_identity (o : TagsOpts) (cast : Bool) (sr : Rat) (a : Ann) (s e : Rat) (l : String)
+    (hg : a.geom = some (.timeInterval s e)) (hl : labelFromTags o a.tags = .ok l) :
+    exportSegment o cast sr a = .ok ⟨l, some s, some e, some (timeToSample sr s), some (timeToSample sr e)⟩ := by
+  simp [exportSegment, hg, geomToInterval, hl, bind, Except.bind, pure, Except.pure]
+
+/-- sample indices of an exported segment are `floor(time · samplerate)` of its own onset and
+    offset (times of valid geometries and sample rates are non-negative) -/
+theorem C10_export_samples_floor (o : TagsOpts) (cast : Bool) (sr : Rat) (a : Ann) (s : Segment)
+    (h : exportSegment o cast sr a = .ok s) :
+    ∃ t u, s.onsetS = some t ∧ s.offsetS = some u ∧
+      s.onsetSample = some (timeToSample sr t) ∧ s.offsetSample = some (timeToSample sr u) ∧
+      (0 ≤ t * sr → timeToSample sr t = (t * sr).floor) ∧ (0 ≤ u * sr → timeToSample sr u = (u * sr).floor) := by
+  unfold exportSegment at h
+  cases hg : a.geom with
+  | none => simp [hg] at h
+  | some g =>
+    simp only [hg] at h
+    cases hgi : geomToInterval g cast with
+    | error e => simp [hgi, bind, Except.bind] at h
+    | ok p =>
+      cases hl : labelFromTags o a.tags with
+      | error e => simp [hgi, hl, bind, Except.bind] at h
+      | ok l =>
+        simp [hgi, hl, bind, Except.bind, pure, Except.pure] at h
+        subst h
+        exact ⟨p.1, p.2, rfl, rfl, rfl, rfl, fun h => (timeToSample_floor sr p.1 h).1,
+               fun h => (timeToSample_floor sr p.2 h).1⟩
+
+/-- `bbox_from_annotation` spans the time and frequency bounds of the geometry (of any type), the
+    upper frequency capped at the Nyquist frequency -/
+theorem C10_export_bounds_bbox (o : TagsOpts) (cast raiseTime : Bool) (sr : Rat) (a : Ann) (bb : BBox)
+    (h : exportBBox o cast raiseTime sr a = .ok bb) :
+    ∃ g b, a.geom = some g ∧ g.bounds = some b ∧ bb.onset = b.st ∧ bb.offset = b.en ∧ bb.lowFreq = b.lo ∧
+      bb.highFreq = min b.hi (sr / 2) ∧ labelFromTags o a.tags = .ok bb.label := by
+  unfold exportBBox at h
+  cases hg : a.geom with
+  | none => simp [hg] at h
+  | some g =>
+    simp only [hg] at h
+    cases hgb : geomToBounds g cast raiseTime with
+    | error e => simp [hgb, bind, Except.bind] at h
+    | ok b =>
+      have hb : g.bounds = some b := by
+        unfold geomToBounds at hgb
+        split at hgb
+        · cases hgb
+        · split at hgb
+          · cases hgb
+          · cases hbb : g.bounds with
+            | none => simp [hbb] at hgb
+            | some b' => simp [hbb] at hgb; rw [hgb]
+      cases hl : labelFromTags o a.tags with
+      | error e => simp [hgb, hl, bind, Except.bind] at h
+      | ok l =>
+        simp only [hgb, hl, bind, Except.bind, mkBBox] at h
+        split at h
+        · cases h
+        · cases h; exact ⟨g, b, rfl, hb, rfl, rfl, rfl, rfl, rfl⟩
+
+/-- the Nyquist cap: never above `samplerate / 2`, never above the geometry's own upper
+    frequency, and equal to it when that is at most the Nyquist frequency -/
+theorem C10_export_nyquist_cap (o : TagsOpts) (cast raiseTime : Bool) (sr : Rat) (a : Ann) (bb : BBox)
+    (h : exportBBox o cast raiseTime sr a = .ok bb) :
+    bb.highFreq ≤ sr / 2 ∧
+      ∀ g b, a.geom = some g → g.bounds = some b → bb.highFreq ≤ b.hi ∧ (b.hi ≤ sr / 2 → bb.highFreq = b.hi) := by
+  obtain ⟨g, b, hg, hb, _, _, _, hh, _⟩ := C10_export_bounds_bbox o cast raiseTime sr a bb h
+  refine ⟨by rw [hh]; grind, ?_⟩
+  intro g' b' hg' hb'
+  rw [hg] at hg'; cases hg'; rw [hb] at hb'; cases hb'
+  rw [hh]; constructor <;> grind
+
+/-- an exported box satisfies crowsetta's invariants (otherwise the export raises `ValueError`) -/
+theorem C10_export_bbox_valid (o : TagsOpts) (cast raiseTime : Bool) (sr : Rat) (a : Ann) (bb : BBox)
+    (h : exportBBox o cast raiseTime sr a = .ok bb) :
+    0 ≤ bb.onset ∧ bb.onset < bb.offset ∧ 0 ≤ bb.lowFreq ∧ bb.lowFreq < bb.highFreq := by
+  unfold exportBBox at h
+  cases hg : a.geom with
+  | none => simp [hg] at h
+  | some g =>
+    simp only [hg] at h
+    cases hgb : geomToBounds g cast raiseTime with
+    | error e => simp [hgb, bind, Except.bind] at h
+    | ok b =>
+      cases hl : labelFromTags o a.tags with
+      | error e => simp [hgb, hl, bind, Except.bind] at h
+      | ok l =>
+        simp only [hgb, hl, bind, Except.bind, mkBBox] at h
+        split at h
+        · cases h
+        · cases h; simp only; grind
+
+/-- the switches of `segment_from_annotation`: no geometry is a `ValueError`; a geometry that is
+    not a `TimeInterval` is a `ValueError` unless casting is allowed -/
+theorem C10_export_switches_segment (o : TagsOpts) (cast : Bool) (sr : Rat) (a : Ann) :
+    (a.geom = none → exportSegment o cast sr a = .error .invalid) ∧
+    (∀ g, a.geom = some g → (∀ s e, g ≠ .timeInterval s e) → cast = false →
+        exportSegment o cast sr a = .error .invalid) := by
+  constructor
+  · intro h; simp [exportSegment, h]
+  · intro g hg hnt hc
+    subst hc
+    cases g <;> simp [exportSegment, hg, geomToInterval, bind, Except.bind]
+    exact absurd rfl (hnt _ _)
+
+/-- the switches of `bbox_from_annotation`; with both switches permissive a time interval becomes
+    the box from 0 Hz to `min(MAX_FREQUENCY, Nyquist)` -/
+theorem C10_export_switches_bbox (o : TagsOpts) (cast raiseTime : Bool) (sr : Rat) (a : Ann) :
+    (a.geom = none → exportBBox o cast raiseTime sr a = .error .invalid) ∧
+    (∀ g, a.geom = some g → isBoxGeom g = false → cast = false →
+        exportBBox o cast raiseTime sr a = .error .invalid) ∧
+    (∀ g, a.geom = some g → isTimeGeom g = true → raiseTime = true →
+        exportBBox o cast raiseTime sr a = .error .invalid) ∧
+    (∀ s e l, a.geom = some (.timeInterval s e) → s ≤ e → cast = true → raiseTime = false →
+        labelFromTags o a.tags = .ok l →
+        exportBBox o cast raiseTime sr a = mkBBox s e 0 (min MAXF (sr / 2)) l) := by
+  refine ⟨?_, ?_, ?_, ?_⟩
+  · intro h; simp [exportBBox, h]
+  · intro g hg hb hc
+    simp [exportBBox, hg, geomToBounds, hb, hc, bind, Except.bind]
+  · intro g hg ht hr
+    simp only [exportBBox, hg, geomToBounds, ht, hr, bind, Except.bind]
+    by_cases hb : (!isBoxGeom g) = true ∧ (!cast) = true <;> simp [hb]
+  · intro s e l hg hse hc hr hl
+    subst hc; subst hr
+    simp [exportBBox, hg, geomToBounds, isBoxGeom, isTimeGeom, bounds_timeInterval s e hse, hl, bind, Except.bind]
+
+/-- `ignore_errors=True`: the conversion succeeds iff no element fails with anything but a
+    `ValueError`; the result is then the conversions of the convertible elements, in order -/
+theorem C10_export_error_policy_ignore (o : TagsOpts) (cast raiseTime : Bool) (r : Rec) (anns : List Ann) :
+    (∀ segs, exportSequence o cast true r.samplerate anns = .ok segs ↔
+      (∀ a ∈ anns, ∀ e, exportSegment o cast r.samplerate a = .error e → e = .invalid) ∧
+        segs = anns.filterMap (fun a => (exportSegment o cast r.samplerate a).toOption)) ∧
+    (∀ ca, exportAnnotation o .bbox true cast raiseTime r anns = .ok ca ↔
+      (∀ a ∈ anns, ∀ e, exportBBox o cast raiseTime r.samplerate a = .error e → e = .invalid) ∧
+        ca = ⟨some r.path, anns.filterMap (fun a => (exportBBox o cast raiseTime r.samplerate a).toOption), []⟩) := by
+  constructor
+  · intro segs; exact collect_ignore_ok_iff _ anns segs
+  · intro ca
+    unfold exportAnnotation
+    cases hc : collect (exportBBox o cast raiseTime r.samplerate) true anns with
+    | ok boxes =>
+      have := (collect_ignore_ok_iff _ anns boxes).mp hc
+      simp only [bind, Except.bind, pure, Except.pure, Except.ok.injEq]
+      constructor
+      · rintro rfl; exact ⟨this.1, by rw [this.2]⟩
+      · rintro ⟨_, rfl⟩; rw [this.2]
+    | error e =>
+      simp only [bind, Except.bind, reduceCtorEq, false_iff, not_and]
+      intro hall _
+      have := (collect_ignore_ok_iff _ anns _).mpr ⟨hall, rfl⟩
+      rw [hc] at this; cases this
+
+/-- `ignore_errors=False`: every element must convert; the error raised is the one of the first
+    element that fails.  With `ignore_errors=True` the same holds for errors other than `ValueError` -/
+theorem C10_export_error_policy_raise (o : TagsOpts) (cast ignore : Bool) (sr : Rat) (anns : List Ann) :
+    exportSequence o cast false sr anns = anns.mapM (exportSegment o cast sr) ∧
+    (∀ e, exportSequence o cast ignore sr anns = .error e ↔
+      ∃ pre a post, anns = pre ++ a :: post ∧ exportSegment o cast sr a = .error e ∧
+        ¬ (e = .invalid ∧ ignore = true) ∧
+        ∀ x ∈ pre, (∃ s, exportSegment o cast sr x = .ok s) ∨
+          (exportSegment o cast sr x = .error .invalid ∧ ignore = true)) :=
+  ⟨collect_raise_eq_mapM _ anns, fun e => collect_error_iff _ ignore anns e⟩
+
+/-- order: whatever the policy, the exported elements are the convertible ones in their original
+    order (never more than there were) -/
+theorem C10_export_order (o : TagsOpts) (cast ignore : Bool) (sr : Rat) (anns : List Ann) (segs : List Segment)
+    (h : exportSequence o cast ignore sr anns = .ok segs) :
+    segs = anns.filterMap (fun a => (exportSegment o cast sr a).toOption) ∧ segs.length ≤ anns.length := by
+  have := collect_ok_filterMap _ ignore anns segs h
+  exact ⟨this, by rw [this]; exact List.length_filterMap_le _ _⟩
+
+/-- when every element converts nothing is dropped: one segment per annotation, in order -/
+theorem C10_export_no_error_all (o : TagsOpts) (cast ignore : Bool) (sr : Rat) (anns : List Ann)
+    (g : Ann → Segment) (h : ∀ a ∈ anns, exportSegment o cast sr a = .ok (g a)) :
+    exportSequence o cast ignore sr anns = .ok (anns.map g) :=
+  collect_all_ok _ g ignore anns h
+
+-- non-vacuity
+example : exportSegment { kw := { valueOnly := some true } } true 10 ⟨some (.boundingBox (1/2) 3 (7/4) 9), [⟨termFromKey "k", "v"⟩]⟩ =
+    .ok ⟨"v", some (1/2), some (7/4), some 5, some 17⟩ := by decide +kernel
+example : exportSegment {} false 10 ⟨some (.boundingBox (1/2) 3 (7/4) 9), []⟩ = .error .invalid := by decide +kernel
+example : exportBBox {} true true 10 ⟨some (.boundingBox (1/2) 3 (7/4) 9), []⟩ =
+    .ok ⟨1/2, 7/4, 3, 5, "__empty__"⟩ := by decide +kernel
+example : exportBBox {} true true 10 ⟨some (.boundingBox (1/2) 6 (7/4) 9), []⟩ = .error .invalid := by decide +kernel
+example : exportBBox {} true false 10 ⟨some (.timeInterval 1 2), []⟩ = .ok ⟨1, 2, 0, 5, "__empty__"⟩ := by decide +kernel
+example : exportBBox {} true true 10 ⟨some (.lineString [(1, 2), (2, 1), (3, 4)]), []⟩ =
+    .ok ⟨1, 3, 1, 4, "__empty__"⟩ := by decide +kernel
+example : exportSequence {} false true 10 [⟨some (.timeInterval 1 2), []⟩, ⟨none, []⟩, ⟨some (.point 1 2), []⟩,
+    ⟨some (.timeInterval 2 3), []⟩] =
+    .ok [⟨"__empty__", some 1, some 2, some 10, some 20⟩, ⟨"__empty__", some 2, some 3, some 20, some 30⟩] := by
+  decide +kernel
+example : exportSequence {} false false 10 [⟨some (.timeInterval 1 2), []⟩, ⟨none, []⟩] = .error .invalid := by
+  decide +kernel
+example : exportSequence { kw := { labelFn := some (fun _ => .error .key) } } true true 10
+    [⟨none, []⟩, ⟨some (.timeInterval 1 2), [⟨termFromKey "k", "v"⟩]⟩] = .error .key := by decide +kernel
+
+/-! ## the round trip: export after import -/
+
+/-- import options that turn a label into (at most) one tag whose value is the label -/
+structure SingleTagImport (io : LabelOpts) : Prop where
+  noFn : io.tagFn = none
+  noTagMapping : io.tagMapping = none
+
+/-- export options that give value-only labels -/
+structure ValueOnlyExport (eo : TagsOpts) : Prop where
+  noSeqFn : eo.seqLabelFn = none
+  noSelect : eo.selectByKey = none
+  noFn : eo.kw.labelFn = none
+  noMapping : eo.kw.labelMapping = none
+  valueOnly : eo.kw.valueOnly = some true
+
+/-- labels survive: whatever term, key, mappings or fallback the import uses and whatever index
+    or separator the export uses, provided both sides agree on the empty label -/
+theorem C10_roundtrip_label (io : LabelOpts) (eo : TagsOpts) (hi : SingleTagImport io) (he : ValueOnlyExport eo)
+    (hm : io.emptyLabels = [eo.emptyLabel]) (label : String) :
+    ∃ tags, labelToTags io label = .ok tags ∧ labelFromTags eo tags = .ok label := by
+  by_cases hl : label ∈ io.emptyLabels
+  · refine ⟨[], C10_to_tags_empty io label hl, ?_⟩
+    rw [C10_from_tags_empty eo he.noSeqFn]
+    rw [hm] at hl; simp at hl; rw [hl]
+  · have hfn : fnRung io label = none := by simp [fnRung, hi.noFn]
+    have htm : hit io.tagMapping label = none := by simp [hit, hi.noTagMapping]
+    obtain ⟨t, ht⟩ := C10_to_tags_value_is_label io label hl hfn htm
+    refine ⟨_, ht, ?_⟩
+    have hone : labelFromTag eo.kw tagSep ⟨t, label⟩ = .ok label := by
+      simp [labelFromTag, he.noFn, he.noMapping, he.valueOnly]
+    cases hidx : eo.index with
+    | some i =>
+      rw [C10_from_tags_index eo _ i he.noSeqFn (by simp) he.noSelect hidx]
+      have : (i % ((([⟨t, label⟩] : List Tag).length : Nat) : Int)).toNat = 0 := by simp
+      simp only [this]; exact hone
+    | none =>
+      have := (C10_from_tags_join eo [⟨t, label⟩] he.noSeqFn (by simp) he.noSelect hidx).1 [label]
+        (by simp [hone])
+      rw [this]; rfl
+
+/-- what the round trip makes of a segment given in seconds: label, onset and offset are
+    reproduced; the sample indices are `int(seconds · samplerate)` -/
+def canonSegment (sr : Rat) (s : Segment) : Segment :=
+  ⟨s.label, s.onsetS, s.offsetS, s.onsetS.map (timeToSample sr), s.offsetS.map (timeToSample sr)⟩
+
+/-- a segment the importer accepts from its seconds -/
+def SecondsValid (s : Segment) : Prop :=
+  ∃ a b, s.onsetS = some a ∧ s.offsetS = some b ∧ 0 ≤ a ∧ a ≤ b
+
+/-- the two steps of the segment round trip: the import succeeds with *some* annotation and the
+    export of that annotation is the canonical segment -/
+theorem C10_roundtrip_segment_steps (io : LabelOpts) (eo : TagsOpts) (hi : SingleTagImport io) (he : ValueOnlyExport eo)
+    (hm : io.emptyLabels = [eo.emptyLabel]) (adjust cast : Bool) (r : Rec) (hte : r.te = 1 ∨ adjust = false)
+    (s : Segment) (hs : SecondsValid s) :
+    ∃ ann, importSegment io adjust r s = .ok ann ∧
+      exportSegment eo cast r.samplerate ann = .ok (canonSegment r.samplerate s) := by
+  obtain ⟨a, b, hsa, hsb, h0, hab⟩ := hs
+  obtain ⟨tags, htags, hlab⟩ := C10_roundtrip_label io eo hi he hm s.label
+  have hseg : segTimes s.onsetS s.offsetS (s.onsetSample.map ratOfInt) (s.offsetSample.map ratOfInt)
+      r.samplerate r.te adjust = some (a, b) := by
+    rw [hsa, hsb]
+    rcases hte with h | h
+    · rw [h]; exact C10_import_no_expansion a b _ _ _ adjust
+    · subst h; simp [segTimes, fileTime, adjTime]
+  refine ⟨⟨some (.timeInterval a b), tags⟩, ?_, ?_⟩
+  · rw [C10_import_segment_geometry]
+    exact ⟨a, b, hseg, h0, hab, rfl, htags⟩
+  · rw [C10_export_interval_identity eo cast r.samplerate _ a b s.label rfl hlab]
+    simp [canonSegment, hsa, hsb]
+
+/-- **round trip, segments** (`te = 1` or no adjustment, value-only labels): onset, offset and
+    label come back exactly, sample indices are recomputed from the seconds -/
+theorem C10_roundtrip_segment (io : LabelOpts) (eo : TagsOpts) (hi : SingleTagImport io) (he : ValueOnlyExport eo)
+    (hm : io.emptyLabels = [eo.emptyLabel]) (adjust cast : Bool) (r : Rec) (hte : r.te = 1 ∨ adjust = false)
+    (s : Segment) (hs : SecondsValid s) :
+    roundtripSegment io eo adjust cast r s = .ok (canonSegment r.samplerate s) := by
+  obtain ⟨ann, h1, h2⟩ := C10_roundtrip_segment_steps io eo hi he hm adjust cast r hte s hs
+  simp [roundtripSegment, h1, h2, bind, Except.bind]
+
+/-- **round trip, segments given in samples only** (`te = 1`, positive sample rate): the sample
+    indices come back exactly, the seconds are `sample / samplerate` -/
+theorem C10_roundtrip_segment_samples (io : LabelOpts) (eo : TagsOpts) (hi : SingleTagImport io)
+    (he : ValueOnlyExport eo) (hm : io.emptyLabels = [eo.emptyLabel]) (adjust cast : Bool) (r : Rec)
+    (hte : r.te = 1) (hsr : 0 < r.samplerate) (label : String) (n m : Int) (h0 : 0 ≤ n) (hnm : n ≤ m) :
+    roundtripSegment io eo adjust cast r ⟨label, none, none, some n, some m⟩ =
+      .ok ⟨label, some ((n : Rat) / r.samplerate), some ((m : Rat) / r.samplerate), some n, some m⟩ := by
+  obtain ⟨tags, htags, hlab⟩ := C10_roundtrip_label io eo hi he hm label
+  have hne : r.samplerate ≠ 0 := by grind
+  have hinv : 0 < r.samplerate⁻¹ := Rat.inv_pos.mpr hsr
+  have hseg : segTimes none none (some (ratOfInt n)) (some (ratOfInt m)) r.samplerate r.te adjust =
+      some ((n : Rat) / r.samplerate, (m : Rat) / r.samplerate) := by
+    rw [hte]; simp only [segTimes, fileTime, adjTime, ratOfInt]
+    simp; constructor <;> grind
+  have hn0 : (0 : Rat) ≤ (n : Rat) / r.samplerate := by
+    rw [Rat.div_def]; exact Rat.mul_nonneg (by exact_mod_cast h0) (Rat.le_of_lt hinv)
+  have hle : (n : Rat) / r.samplerate ≤ (m : Rat) / r.samplerate := by
+    rw [Rat.div_def, Rat.div_def]
+    exact Rat.mul_le_mul_of_nonneg_right (by exact_mod_cast hnm) (Rat.le_of_lt hinv)
+  have himp : importSegment io adjust r ⟨label, none, none, some n, some m⟩ =
+      .ok ⟨some (.timeInterval ((n : Rat) / r.samplerate) ((m : Rat) / r.samplerate)), tags⟩ := by
+    rw [C10_import_segment_geometry]
+    exact ⟨_, _, hseg, hn0, hle, rfl, htags⟩
+  have hsn : timeToSample r.samplerate ((n : Rat) / r.samplerate) = n := by
+    have : (n : Rat) / r.samplerate * r.samplerate = (n : Rat) := by grind
+    rw [timeToSample, this]; exact pyInt_intCast n
+  have hsm : timeToSample r.samplerate ((m : Rat) / r.samplerate) = m := by
+    have : (m : Rat) / r.samplerate * r.samplerate = (m : Rat) := by grind
+    rw [timeToSample, this]; exact pyInt_intCast m
+  simp only [roundtripSegment, himp, bind, Except.bind]
+  rw [C10_export_interval_identity eo cast r.samplerate _ _ _ label rfl hlab, hsn, hsm]
+
+/-- the time the importer reads from one end of a segment when there is no time expansion -/
+def endTime (sr : Rat) (sec : Option Rat) (sample : Option Int) : Option Rat :=
+  fileTime sec (sample.map ratOfInt) sr 1
+
+/-- a segment the importer accepts without time expansion: each end given in seconds or in samples
+    (any mixture), non-negative and ordered -/
+def SegValid (sr : Rat) (s : Segment) : Prop :=
+  ∃ a b, endTime sr s.onsetS s.onsetSample = some a ∧ endTime sr s.offsetS s.offsetSample = some b ∧
+    0 ≤ a ∧ a ≤ b
+
+/-- what the round trip makes of such a segment -/
+def rtImage (sr : Rat) (s : Segment) : Segment :=
+  ⟨s.label, endTime sr s.onsetS s.onsetSample, endTime sr s.offsetS s.offsetSample,
+   (endTime sr s.onsetS s.onsetSample).map (timeToSample sr),
+   (endTime sr s.offsetS s.offsetSample).map (timeToSample sr)⟩
+
+/-- the two steps, general form: import succeeds, export of the imported annotation is the image -/
+theorem C10_roundtrip_segment_general_steps (io : LabelOpts) (eo : TagsOpts) (hi : SingleTagImport io)
+    (he : ValueOnlyExport eo) (hm : io.emptyLabels = [eo.emptyLabel]) (adjust cast : Bool) (r : Rec)
+    (hte : r.te = 1) (s : Segment) (hs : SegValid r.samplerate s) :
+    ∃ ann, importSegment io adjust r s = .ok ann ∧
+      exportSegment eo cast r.samplerate ann = .ok (rtImage r.samplerate s) := by
+  obtain ⟨a, b, ha, hb, h0, hab⟩ := hs
+  obtain ⟨tags, htags, hlab⟩ := C10_roundtrip_label io eo hi he hm s.label
+  have hseg : segTimes s.onsetS s.offsetS (s.onsetSample.map ratOfInt) (s.offsetSample.map ratOfInt)
+      r.samplerate r.te adjust = some (a, b) := by
+    unfold endTime at ha hb
+    rw [hte]; simp [segTimes, ha, hb, adjTime]
+  refine ⟨⟨some (.timeInterval a b), tags⟩, ?_, ?_⟩
+  · rw [C10_import_segment_geometry]
+    exact ⟨a, b, hseg, h0, hab, rfl, htags⟩
+  · rw [C10_export_interval_identity eo cast r.samplerate _ a b s.label rfl hlab]
+    simp [rtImage, ha, hb]
+
+/-- **round trip, segments, general form** (`te = 1`): each end may be given in seconds or in
+    samples; label, onset and offset are reproduced -/
+theorem C10_roundtrip_segment_general (io : LabelOpts) (eo : TagsOpts) (hi : SingleTagImport io)
+    (he : ValueOnlyExport eo) (hm : io.emptyLabels = [eo.emptyLabel]) (adjust cast : Bool) (r : Rec)
+    (hte : r.te = 1) (s : Segment) (hs : SegValid r.samplerate s) :
+    roundtripSegment io eo adjust cast r s = .ok (rtImage r.samplerate s) := by
+  obtain ⟨ann, h1, h2⟩ := C10_roundtrip_segment_general_steps io eo hi he hm adjust cast r hte s hs
+  simp [roundtripSegment, h1, h2, bind, Except.bind]
+
+/-- the image satisfies the monitor: seconds that were given come back with
+    `floor(seconds · samplerate)`, ends given in samples get their sample index back -/
+theorem C10_roundtrip_monitor_segment (sr : Rat) (hsr : sr ≠ 0) (s : Segment) (hs : SegValid sr s) :
+    rtSegmentOk sr s (rtImage sr s) = true := by
+  obtain ⟨a, b, ha, hb, _, _⟩ := hs
+  have key : ∀ (sec : Option Rat) (smp : Option Int) (t : Rat), endTime sr sec smp = some t →
+      rtEndOk sr sec smp (endTime sr sec smp) ((endTime sr sec smp).map (timeToSample sr)) = true := by
+    intro sec smp t h
+    cases sec with
+    | some x => simp [rtEndOk, endTime, fileTime]
+    | none =>
+      cases smp with
+      | none => simp [endTime, fileTime] at h
+      | some n =>
+        have hd : ratOfInt n / (sr / 1) = ratOfInt n / sr := by grind
+        simp [rtEndOk, endTime, fileTime, hd, timeToSample_div sr hsr n]
+  simp only [rtSegmentOk, rtImage, decide_true, Bool.true_and, Bool.and_eq_true]
+  exact ⟨key _ _ a ha, key _ _ b hb⟩
+
+/-- … and for sequences: same length, same order, every segment -/
+theorem C10_roundtrip_monitor_sequence (sr : Rat) (hsr : sr ≠ 0) (segs : List Segment) (hs : ∀ s ∈ segs, SegValid sr s) :
+    rtSeqOk sr segs (segs.map (rtImage sr)) = true := by
+  induction segs with
+  | nil => rfl
+  | cons s ss ih =>
+    simp only [List.map_cons, rtSeqOk, Bool.and_eq_true]
+    exact ⟨C10_roundtrip_monitor_segment sr hsr s (hs s (by simp)), ih (fun x hx => hs x (by simp [hx]))⟩
+
+/-- **round trip, sequences and sequence annotations, general form** (`te = 1`, non-zero rate) -/
+theorem C10_roundtrip_sequence_general (io : LabelOpts) (eo : TagsOpts) (hi : SingleTagImport io)
+    (he : ValueOnlyExport eo) (hm : io.emptyLabels = [eo.emptyLabel]) (adjust cast ignore raiseTime : Bool) (r : Rec)
+    (hte : r.te = 1) (segs : List Segment) (hs : ∀ s ∈ segs, SegValid r.samplerate s) :
+    roundtripSequence io eo adjust cast ignore r segs = .ok (segs.map (rtImage r.samplerate)) ∧
+    roundtripAnnotation io eo .seq adjust ignore cast raiseTime r ⟨some r.path, [], [segs]⟩ =
+      .ok ⟨some r.path, [], [segs.map (rtImage r.samplerate)]⟩ := by
+  obtain ⟨anns, h1, h2⟩ := mapM_collect_roundtrip (importSegment io adjust r)
+    (exportSegment eo cast r.samplerate) (rtImage r.samplerate) ignore segs
+    (fun s h => C10_roundtrip_segment_general_steps io eo hi he hm adjust cast r hte s (hs s h))
+  have h1' : importSequence io adjust r segs = .ok anns := h1
+  constructor
+  · simp [roundtripSequence, exportSequence, h1', h2, bind, Except.bind]
+  · simp [roundtripAnnotation, importAnnotation, importSeqs, exportAnnotation, exportSequence, h1', h2, bind,
+      Except.bind, pure, Except.pure]
+
+/-- the monitor evaluated by the harness on the implementation's own round trips is implied,
+    for every segment / sequence / sequence annotation in the domain -/
+theorem C10_roundtrip_holds_general (io : LabelOpts) (eo : TagsOpts) (hi : SingleTagImport io)
+    (he : ValueOnlyExport eo) (hm : io.emptyLabels = [eo.emptyLabel]) (adjust cast ignore raiseTime : Bool) (r : Rec)
+    (hte : r.te = 1) (hsr : r.samplerate ≠ 0) :
+    (∀ s y, SegValid r.samplerate s → roundtripSegment io eo adjust cast r s = .ok y →
+        rtSegmentOk r.samplerate s y = true) ∧
+    (∀ segs ys, (∀ s ∈ segs, SegValid r.samplerate s) →
+        roundtripSequence io eo adjust cast ignore r segs = .ok ys → rtSeqOk r.samplerate segs ys = true) ∧
+    (∀ segs y, (∀ s ∈ segs, SegValid r.samplerate s) →
+        roundtripAnnotation io eo .seq adjust ignore cast raiseTime r ⟨some r.path, [], [segs]⟩ = .ok y →
+        rtAnnOk r.samplerate ⟨some r.path, [], [segs]⟩ y = true) := by
+  refine ⟨?_, ?_, ?_⟩
+  · intro s y hs hy
+    rw [C10_roundtrip_segment_general io eo hi he hm adjust cast r hte s hs] at hy
+    cases hy; exact C10_roundtrip_monitor_segment _ hsr s hs
+  · intro segs ys hs hy
+    rw [(C10_roundtrip_sequence_general io eo hi he hm adjust cast ignore raiseTime r hte segs hs).1] at hy
+    cases hy; exact C10_roundtrip_monitor_sequence _ hsr segs hs
+  · intro segs y hs hy
+    rw [(C10_roundtrip_sequence_general io eo hi he hm adjust cast ignore raiseTime r hte segs hs).2] at hy
+    cases hy
+    simp [rtAnnOk, rtSeqsOk, C10_roundtrip_monitor_sequence _ hsr segs hs]
+
+example : SegValid 8 ⟨"a", some (1/2), none, none, some 10⟩ :=
+  ⟨1/2, 5/4, by decide +kernel, by decide +kernel, by decide +kernel, by decide +kernel⟩
+example : roundtripSegment {} { kw := { valueOnly := some true } } true true ⟨8, 1, "rec.wav"⟩
+    ⟨"a", some (1/2), none, none, some 10⟩ = .ok ⟨"a", some (1/2), some (5/4), some 4, some 10⟩ := by decide +kernel
+
+/-- a crowsetta box the round trip reproduces: crowsetta's own invariants, the upper frequency
+    within `MAX_FREQUENCY` and the Nyquist frequency -/
+structure BoxInDomain (r : Rec) (b : BBox) : Prop where
+  onset_nonneg : 0 ≤ b.onset
+  onset_lt : b.onset < b.offset
+  low_nonneg : 0 ≤ b.lowFreq
+  low_lt : b.lowFreq < b.highFreq
+  high_le_max : b.highFreq ≤ MAXF
+  high_le_nyquist : b.highFreq ≤ r.samplerate / 2
+
+/-- the two steps of the box round trip: the import succeeds and the export of the imported
+    annotation is the box itself (no element can be dropped by `ignore_errors`) -/
+theorem C10_roundtrip_bbox_steps (io : LabelOpts) (eo : TagsOpts) (hi : SingleTagImport io) (he : ValueOnlyExport eo)
+    (hm : io.emptyLabels = [eo.emptyLabel]) (adjust cast raiseTime : Bool) (r : Rec)
+    (hte : r.te = 1 ∨ adjust = false) (b : BBox) (hb : BoxInDomain r b) :
+    ∃ ann, importBBox io adjust r b = .ok ann ∧ exportBBox eo cast raiseTime r.samplerate ann = .ok b := by
+  obtain ⟨tags, htags, hlab⟩ := C10_roundtrip_label io eo hi he hm b.label
+  obtain ⟨h0, h1, h2, h3, h4, h5⟩ := hb
+  have hc : boxCoords b.onset b.offset b.lowFreq b.highFreq r.te adjust =
+      (b.onset, b.lowFreq, b.offset, b.highFreq) := by
+    rcases hte with h | h
+    · rw [h]; simp [boxCoords, adjTime, adjFreq]
+    · subst h; simp [boxCoords, adjTime, adjFreq]
+  have hmk : mkBox b.onset b.lowFreq b.offset b.highFreq =
+      .ok (.boundingBox b.onset b.lowFreq b.offset b.highFreq) := by
+    unfold mkBox
+    have c1 : ¬ (b.onset < 0 ∨ b.lowFreq < 0 ∨ b.lowFreq > MAXF ∨ b.offset < 0 ∨ b.highFreq < 0 ∨ b.highFreq > MAXF) := by
+      grind
+    have c2 : ¬ b.onset > b.offset := by grind
+    have c3 : ¬ b.lowFreq > b.highFreq := by grind
+    simp only [c1, c2, c3, if_false]
+  refine ⟨⟨some (.boundingBox b.onset b.lowFreq b.offset b.highFreq), tags⟩, ?_, ?_⟩
+  · simp only [importBBox, hc, hmk, htags, bind, Except.bind, pure, Except.pure]
+  · have hbd := bounds_boundingBox b.onset b.lowFreq b.offset b.highFreq (by grind) (by grind)
+    have hmin : min b.highFreq (r.samplerate / 2) = b.highFreq := by grind
+    have hv : ¬ (b.onset < 0 ∨ ¬ b.onset < b.offset ∨ b.offset < 0 ∨ b.lowFreq < 0 ∨ ¬ b.lowFreq < b.highFreq ∨
+        b.highFreq < 0) := by grind
+    simp only [exportBBox, geomToBounds, isBoxGeom, isTimeGeom, hbd, hlab, mkBBox, bind, Except.bind]
+    simp only [Bool.not_true, Bool.false_eq_true, false_and, if_false, hmin, hv]
+
+/-- **round trip, boxes** (`te = 1` or no adjustment, value-only labels, `high ≤ Nyquist`):
+    export after import is the identity, for every setting of the cast / raise switches -/
+theorem C10_roundtrip_bbox (io : LabelOpts) (eo : TagsOpts) (hi : SingleTagImport io) (he : ValueOnlyExport eo)
+    (hm : io.emptyLabels = [eo.emptyLabel]) (adjust cast raiseTime : Bool) (r : Rec)
+    (hte : r.te = 1 ∨ adjust = false) (b : BBox) (hb : BoxInDomain r b) :
+    roundtripBBox io eo adjust cast raiseTime r b = .ok b := by
+  obtain ⟨ann, h1, h2⟩ := C10_roundtrip_bbox_steps io eo hi he hm adjust cast raiseTime r hte b hb
+  simp [roundtripBBox, h1, h2, bind, Except.bind]
+
+/-- **round trip, sequences**: one segment per segment, in order, each reproduced; nothing is
+    dropped under either error policy -/
+theorem C10_roundtrip_sequence (io : LabelOpts) (eo : TagsOpts) (hi : SingleTagImport io) (he : ValueOnlyExport eo)
+    (hm : io.emptyLabels = [eo.emptyLabel]) (adjust cast ignore : Bool) (r : Rec)
+    (hte : r.te = 1 ∨ adjust = false) (segs : List Segment) (hs : ∀ s ∈ segs, SecondsValid s) :
+    roundtripSequence io eo adjust cast ignore r segs = .ok (segs.map (canonSegment r.samplerate)) := by
+  obtain ⟨anns, h1, h2⟩ := mapM_collect_roundtrip (importSegment io adjust r)
+    (exportSegment eo cast r.samplerate) (canonSegment r.samplerate) ignore segs
+    (fun s h => C10_roundtrip_segment_steps io eo hi he hm adjust cast r hte s (hs s h))
+  simp [roundtripSequence, importSequence, exportSequence, h1, h2, bind, Except.bind]
+
+/-- **round trip, annotations with boxes**: the annotation comes back unchanged -/
+theorem C10_roundtrip_annotation_bbox (io : LabelOpts) (eo : TagsOpts) (hi : SingleTagImport io)
+    (he : ValueOnlyExport eo) (hm : io.emptyLabels = [eo.emptyLabel]) (adjust ignore cast raiseTime : Bool)
+    (r : Rec) (hte : r.te = 1 ∨ adjust = false) (boxes : List BBox) (hb : ∀ b ∈ boxes, BoxInDomain r b) :
+    roundtripAnnotation io eo .bbox adjust ignore cast raiseTime r ⟨some r.path, boxes, []⟩ =
+      .ok ⟨some r.path, boxes, []⟩ := by
+  obtain ⟨anns, h1, h2⟩ := mapM_collect_roundtrip (importBBox io adjust r)
+    (exportBBox eo cast raiseTime r.samplerate) id ignore boxes
+    (fun b h => C10_roundtrip_bbox_steps io eo hi he hm adjust cast raiseTime r hte b (hb b h))
+  simp [roundtripAnnotation, importAnnotation, importSeqs, exportAnnotation, h1, h2, bind, Except.bind,
+    pure, Except.pure]
+
+/-- **round trip, annotations with a sequence** -/
+theorem C10_roundtrip_annotation_seq (io : LabelOpts) (eo : TagsOpts) (hi : SingleTagImport io)
+    (he : ValueOnlyExport eo) (hm : io.emptyLabels = [eo.emptyLabel]) (adjust ignore cast raiseTime : Bool)
+    (r : Rec) (hte : r.te = 1 ∨ adjust = false) (segs : List Segment) (hs : ∀ s ∈ segs, SecondsValid s) :
+    roundtripAnnotation io eo .seq adjust ignore cast raiseTime r ⟨some r.path, [], [segs]⟩ =
+      .ok ⟨some r.path, [], [segs.map (canonSegment r.samplerate)]⟩ := by
+  obtain ⟨anns, h1, h2⟩ := mapM_collect_roundtrip (importSegment io adjust r)
+    (exportSegment eo cast r.samplerate) (canonSegment r.samplerate) ignore segs
+    (fun s h => C10_roundtrip_segment_steps io eo hi he hm adjust cast r hte s (hs s h))
+  have h1' : importSequence io adjust r segs = .ok anns := h1
+  simp [roundtripAnnotation, importAnnotation, importSeqs, exportAnnotation, exportSequence, h1', h2, bind,
+    Except.bind, pure, Except.pure]
+
+/-- the monitor the harness evaluates on the implementation's own output is implied by the round
+    trip: both kinds of segments satisfy `rtSegmentOk` -/
+theorem C10_roundtrip_holds_segment (io : LabelOpts) (eo : TagsOpts) (hi : SingleTagImport io)
+    (he : ValueOnlyExport eo) (hm : io.emptyLabels = [eo.emptyLabel]) (adjust cast : Bool) (r : Rec) :
+    (∀ s y, (r.te = 1 ∨ adjust = false) → SecondsValid s → roundtripSegment io eo adjust cast r s = .ok y →
+        rtSegmentOk r.samplerate s y = true) ∧
+    (∀ label n m y, r.te = 1 → 0 < r.samplerate → 0 ≤ n → n ≤ m →
+        roundtripSegment io eo adjust cast r ⟨label, none, none, some n, some m⟩ = .ok y →
+        rtSegmentOk r.samplerate ⟨label, none, none, some n, some m⟩ y = true) := by
+  constructor
+  · intro s y hte hs hy
+    rw [C10_roundtrip_segment io eo hi he hm adjust cast r hte s hs] at hy
+    cases hy
+    obtain ⟨a, b, hsa, hsb, _, _⟩ := hs
+    simp [rtSegmentOk, rtEndOk, canonSegment, hsa, hsb]
+  · intro label n m y hte hsr h0 hnm hy
+    rw [C10_roundtrip_segment_samples io eo hi he hm adjust cast r hte hsr label n m h0 hnm] at hy
+    cases hy
+    simp [rtSegmentOk, rtEndOk, ratOfInt]
+
+/-- the sequence monitor on the canonical image of segments given in seconds -/
+theorem C10_roundtrip_monitor_sequence_seconds (sr : Rat) (segs : List Segment) (hs : ∀ s ∈ segs, SecondsValid s) :
+    rtSeqOk sr segs (segs.map (canonSegment sr)) = true := by
+  induction segs with
+  | nil => rfl
+  | cons s ss ih =>
+    obtain ⟨a, b, hsa, hsb, _, _⟩ := hs s (by simp)
+    simp only [List.map_cons, rtSeqOk, Bool.and_eq_true]
+    exact ⟨by simp [rtSegmentOk, rtEndOk, canonSegment, hsa, hsb], ih (fun x hx => hs x (by simp [hx]))⟩
+
+/-- … and so do sequences (lengths, order, every segment) and annotations -/
+theorem C10_roundtrip_holds_sequence (io : LabelOpts) (eo : TagsOpts) (hi : SingleTagImport io)
+    (he : ValueOnlyExport eo) (hm : io.emptyLabels = [eo.emptyLabel]) (adjust cast ignore raiseTime : Bool) (r : Rec)
+    (hte : r.te = 1 ∨ adjust = false) (segs : List Segment) (hs : ∀ s ∈ segs, SecondsValid s) :
+    (∀ ys, roundtripSequence io eo adjust cast ignore r segs = .ok ys → rtSeqOk r.samplerate segs ys = true) ∧
+    (∀ y, roundtripAnnotation io eo .seq adjust ignore cast raiseTime r ⟨some r.path, [], [segs]⟩ = .ok y →
+        rtAnnOk r.samplerate ⟨some r.path, [], [segs]⟩ y = true) ∧
+    (∀ boxes y, (∀ b ∈ boxes, BoxInDomain r b) →
+        roundtripAnnotation io eo .bbox adjust ignore cast raiseTime r ⟨some r.path, boxes, []⟩ = .ok y →
+        rtAnnOk r.samplerate ⟨some r.path, boxes, []⟩ y = true) := by
+  refine ⟨?_, ?_, ?_⟩
+  · intro ys hy
+    rw [C10_roundtrip_sequence io eo hi he hm adjust cast ignore r hte segs hs] at hy
+    cases hy; exact C10_roundtrip_monitor_sequence_seconds _ segs hs
+  · intro y hy
+    rw [C10_roundtrip_annotation_seq io eo hi he hm adjust ignore cast raiseTime r hte segs hs] at hy
+    cases hy
+    simp [rtAnnOk, rtSeqsOk, C10_roundtrip_monitor_sequence_seconds _ segs hs]
+  · intro boxes y hb hy
+    rw [C10_roundtrip_annotation_bbox io eo hi he hm adjust ignore cast raiseTime r hte boxes hb] at hy
+    cases hy
+    simp [rtAnnOk, rtSeqsOk]
+
+-- non-vacuity: the hypotheses are satisfiable and the round trip is not the identity outside them
+example : roundtripSegment {} { kw := { valueOnly := some true } } true true ⟨8, 1, "rec.wav"⟩
+    ⟨"a", some (1/2), some (5/4), none, none⟩ = .ok ⟨"a", some (1/2), some (5/4), some 4, some 10⟩ := by decide +kernel
+example : roundtripSegment {} { kw := { valueOnly := some true } } true true ⟨8, 1, "rec.wav"⟩
+    ⟨"__empty__", none, none, some 4, some 10⟩ = .ok ⟨"__empty__", some (1/2), some (5/4), some 4, some 10⟩ := by
+  decide +kernel
+example : roundtripSegment {} { kw := { valueOnly := some true } } true true ⟨8, 2, "rec.wav"⟩
+    ⟨"a", some (1/2), some (5/4), none, none⟩ = .ok ⟨"a", some (1/4), some (5/8), some 2, some 5⟩ := by decide +kernel
+example : roundtripSegment {} {} true true ⟨8, 1, "rec.wav"⟩
+    ⟨"a", some (1/2), some (5/4), none, none⟩ = .ok ⟨"crowsetta:a", some (1/2), some (5/4), some 4, some 10⟩ := by
+  decide +kernel
+example : roundtripBBox {} { kw := { valueOnly := some true } } true true true ⟨8, 1, "rec.wav"⟩ ⟨1, 2, 1, 3, "a"⟩ =
+    .ok ⟨1, 2, 1, 3, "a"⟩ := by decide +kernel
+example : roundtripBBox {} { kw := { valueOnly := some true } } true true true ⟨8, 1, "rec.wav"⟩ ⟨1, 2, 1, 5, "a"⟩ =
+    .ok ⟨1, 2, 1, 4, "a"⟩ := by decide +kernel
+example : BoxInDomain ⟨8, 1, "rec.wav"⟩ ⟨1, 2, 1, 3, "a"⟩ := by constructor <;> decide +kernel
+example : SecondsValid ⟨"a", some (1/2), some (5/4), none, none⟩ := ⟨1/2, 5/4, rfl, rfl, by decide +kernel, by decide +kernel⟩
+
+/-! ## the defects of the pinned commit, as theorems about `Pinned.*`
+
+  `Pinned.labelToTags` / `Pinned.labelFromTags` are the cascades as they stand at the pinned commit.
+  They differ from the documented cascade (the model above, which the repaired code follows)
+  exactly on the three input classes of `fixes/C10-{1,2,3}-*.patch`. -/
+
+/-- `label_to_tags` at the pinned commit deviates from the documented cascade iff no earlier rung
+    applies and either (defect 3) an explicit `term` hides a `tag_mapping` hit, or (defect 1) a
+    `key_mapping` *miss* discards the explicit `key` -/
+theorem C10_pinned_to_tags_differs_iff (o : LabelOpts) (label : String) :
+    Pinned.labelToTags o label ≠ labelToTags o label ↔
+      label ∉ o.emptyLabels ∧ fnRung o label = none ∧ hit o.termMapping label = none ∧
+        ((∃ t r, o.term = some t ∧ hit o.tagMapping label = some r ∧ r.toList ≠ [⟨t, label⟩]) ∨
+         (o.term = none ∧ hit o.tagMapping label = none ∧ o.keyMapping.isSome = true ∧
+            hit o.keyMapping label = none ∧ ∃ k, o.key = some k ∧ k ≠ o.fallback)) := by
+  unfold Pinned.labelToTags labelToTags
+  by_cases he : label ∈ o.emptyLabels
+  · simp [he]
+  · cases hfn : fnRung o label with
+    | some r => simp [he]
+    | none =>
+      cases ht : hit o.termMapping label with
+      | some t => simp [he]
+      | none =>
+        cases hterm : o.term with
+        | some t =>
+          cases hm : hit o.tagMapping label with
+          | none => simp [he]
+          | some r =>
+            simp only [he, if_false, Option.isNone_some, Bool.false_eq_true, false_and, Option.getD_some,
+              not_false_eq_true, true_and, ne_eq, Except.ok.injEq]
+            constructor
+            · intro h; exact Or.inl ⟨t, r, rfl, rfl, fun h' => h h'.symm⟩
+            · rintro (⟨t', r', ht', hr', hne⟩ | ⟨h', _⟩)
+              · cases ht'; cases hr'; exact fun h' => hne h'.symm
+              · cases h'
+        | none =>
+          cases hm : hit o.tagMapping label with
+          | some r => simp [he]
+          | none =>
+            cases hkm : o.keyMapping with
+            | none => simp [he, chooseKey, hit, hkm]
+            | some m =>
+              cases hk : hit o.keyMapping label with
+              | some k =>
+                have : hit (some m) label = some k := by rw [← hkm]; exact hk
+                simp [he, chooseKey, hkm, this]
+              | none =>
+                have hk' : hit (some m) label = none := by rw [← hkm]; exact hk
+                cases hkey : o.key with
+                | none => simp [he, chooseKey, hkm, hk', hkey]
+                | some k =>
+                  simp [he, chooseKey, hkm, hk', hkey, termFromKey_inj]
+                  exact ⟨fun h h' => h h'.symm, fun h h' => h h'.symm⟩
+
+/-- defect 2: `label_from_tags` at the pinned commit deviates iff a tag is selected by key while
+    `value_only` is among the keyword arguments (duplicate keyword: `TypeError`) -/
+theorem C10_pinned_from_tags_differs_iff (o : TagsOpts) (tags : List Tag) :
+    Pinned.labelFromTags o tags ≠ labelFromTags o tags ↔
+      o.seqLabelFn = none ∧ tags ≠ [] ∧ o.kw.valueOnly.isSome = true ∧
+        ∃ k t, o.selectByKey = some k ∧ tags.find? (fun t => keyFromTerm t.term == k) = some t ∧
+          labelFromTag { o.kw with valueOnly := some true } tagSep t ≠ .error .type := by
+  unfold Pinned.labelFromTags labelFromTags
+  cases hf : o.seqLabelFn with
+  | some f => simp
+  | none =>
+    by_cases hne : tags = []
+    · subst hne; simp
+    · have hemp : tags.isEmpty = false := by cases tags <;> simp_all
+      cases hk : o.selectByKey with
+      | none => simp
+      | some k =>
+        cases ht : tags.find? (fun t => keyFromTerm t.term == k) with
+        | none => simp [hemp, ht]
+        | some t =>
+          by_cases hv : o.kw.valueOnly.isSome = true
+          · simp only [hemp, Bool.false_eq_true, if_false, ht, hv, if_true, ne_eq, hne, not_false_eq_true, true_and,
+              Option.some.injEq, exists_and_left, exists_eq_left']
+            exact ⟨fun h h' => h h'.symm, fun h h' => h h'.symm⟩
+          · simp [hemp, ht, hv]
+
+-- the three Recon inputs: the pinned cascades deviate from the documented one
+example : Pinned.labelToTags { keyMapping := some [("other", "x")], key := some "explicit" } "lab" =
+    .ok [⟨termFromKey "crowsetta", "lab"⟩] := by decide
+example : Pinned.labelFromTags { selectByKey := some "k", kw := { valueOnly := some true } } [⟨termFromKey "k", "v"⟩] =
+    .error .type := by decide
+example : Pinned.labelToTags { term := some ⟨"L", "n:L", "d"⟩, tagMapping := some [("lab", .single ⟨termFromKey "k", "v"⟩)] } "lab" =
+    .ok [⟨⟨"L", "n:L", "d"⟩, "lab"⟩] := by decide
 
 end SE.Proofs.C10
